@@ -73,3 +73,6 @@ Print Assumptions C01_internal_sign_then_verify.
 Print Assumptions C01_provenances.
 Print Assumptions C01_usehint_zero.
 Print Assumptions C01_usehint_one_moves.
+(* T2: the XOF plumbing and the samplers of hashing.rs have the structure the model mirrors *)
+Require F204.Proofs.SourcePins.
+Check F204.Proofs.SourcePins.hashing_skeleton_pinned.
